@@ -13,7 +13,7 @@
 
   Layer B (`Tree`, `Params`, `envOf`, `diffTrees`): the oracles that are algorithms in diff.py, computed from two
   trees given as id-indexed functions: BFS, `_get_expression_leaves`, `_parent_similarity_score` (parent chains),
-  the inner-node threshold test (exact rationals), `_lcs` (row DP with the code's tie-break), move detection,
+  the inner-node threshold test (exact rationals), `_lcs` (row DP over suffixes of the reversed sequences, with the code's tie-break), move detection,
   Keep-vs-Update.  Deep equality `==`, the dict of non-expression leaves, `_is_same_type`'s class and the class
   identity are shipped as equivalence-class numbers; the dice coefficient as the exact value the real code computed.
 
@@ -75,6 +75,8 @@ structure Env where
   innerSim : List (Id × Id) → Id → Id → Bool
   moves : List (Id × Id) → List Id → Id → Id → List (Id × Option Id)
   isUpdate : Id → Id → Bool
+  /-- do caller-matched pairs count in the leaf similarity of the inner pass? (proposed fix; today: no) -/
+  countPre : Bool
 
 /-- one heap entry `(-similarity, -parent_similarity, len(heap), source_leaf, target_leaf)` -/
 structure Cand where
@@ -102,8 +104,15 @@ def enumFrom (E : Env) : Nat → List (Id × Id) → List Cand
 
 def cands (E : Env) : List Cand := enumFrom E 0 (rawCands E)
 
+def insertCand (c : Cand) : List Cand → List Cand
+  | [] => [c]
+  | d :: ds => if c.before d then c :: d :: ds else d :: insertCand c ds
+
+/-- insertion sort by the heap key (keys are pairwise distinct, so every correct sort gives the same list) -/
+def sortCands (l : List Cand) : List Cand := l.foldr insertCand []
+
 /-- `heappop` until empty = the candidates sorted by the heap key -/
-def popOrder (E : Env) : List Cand := (cands E).mergeSort Cand.before
+def popOrder (E : Env) : List Cand := sortCands (cands E)
 
 /-- matching state: the two `_unmatched_*` sets and the pairs matched so far -/
 structure MState where
@@ -149,10 +158,13 @@ structure Matching where
 
 def innerCond (E : Env) (lm : List (Id × Id)) (s t : Id) : Bool := E.sameType s t && E.innerSim lm s t
 
+/-- the `leaves_matching_set` the inner pass counts common leaves in -/
+def innerLm (E : Env) (pre lacc : List (Id × Id)) : List (Id × Id) := if E.countPre then lacc ++ pre else lacc
+
 def matchAll (E : Env) (pre : List (Id × Id)) : Matching :=
   let l := leafPass E pre
   -- ordered_unmatched_*: BFS order restricted to what is still unmatched (same order as `l.us` / `l.ut`)
-  let r := innerLoop (innerCond E l.acc) l.us ⟨l.us, l.ut, []⟩
+  let r := innerLoop (innerCond E (innerLm E pre l.acc)) l.us ⟨l.us, l.ut, []⟩
   { computed := l.acc ++ r.acc
     all := l.acc ++ r.acc ++ pre
     unmatchedS := r.us
@@ -189,6 +201,8 @@ structure Tree where
   nel : Id → Nat            -- class of `dict(_get_non_expression_leaves(node))` under `==`
   eqc : Id → Nat            -- class of the node under `Expr.__eq__`
   idk : Id → Nat            -- class of the list of (arg key, Identifier) direct children under `==`
+  txt : Id → Nat            -- class of the SQL text `_bigram_histo` renders for the node (only used by `DiceOk`)
+  lay : Id → Nat            -- class of the child layout [(arg key, is-Identifier)] in `iter_expressions()` order
 
 structure Params where
   f : Nat                 -- self.f (rank among the dice values of the run)
@@ -196,7 +210,8 @@ structure Params where
   hi : Nat × Nat            -- 0.8
   lo : Nat × Nat            -- 0.4
   minLeaves : Nat           -- 4
-  cmpIdents : Bool          -- does `_generate_edit_script` compare ignored (Identifier) children? (proposed fix)
+  cmpIdents : Bool          -- does `_generate_edit_script` compare ignored (Identifier) children? (fix f25f43a)
+  countPre : Bool           -- do caller-matched leaves count in `leaf_similarity_score`? (proposed fix)
 
 /-- `Expr.bfs()` -/
 def bfsGo (kids : Id → List Id) : Nat → List Id → List Id
@@ -236,26 +251,54 @@ def geFrac (c m : Nat) (pq : Nat × Nat) : Bool :=
   if m = 0 then pq.1 = 0 else pq.1 * m ≤ c * pq.2
 
 def innerSimOf (P : Params) (S T : Tree) (dice : Id → Id → Nat) (lm : List (Id × Id)) (s t : Id) : Bool :=
-  let sl := (S.leaves s).eraseDups
-  let tl := (T.leaves t).eraseDups
+  -- `len({id(l) for l in leaves})` is the list length: leaves of one node are distinct objects (`Tree.wf`, checked by the driver)
+  let sl := S.leaves s
+  let tl := T.leaves t
   let mx := max sl.length tl.length
   let common := (lm.filter fun p => sl.contains p.1 && tl.contains p.2).length
   let adjT := if min sl.length tl.length > P.minLeaves then P.t else P.lo
   geFrac common mx P.hi || (geFrac common mx adjT && decide (P.f ≤ dice s t))
 
+/-- input well-formedness (decidable; the driver refuses inputs that fail it, the theorems about trees assume it):
+    distinct node objects, leaves of every node distinct, reachable from the root and in the index, children know their
+    parent and come later in BFS order, the root is the only parentless node -/
+def Tree.wfWith (S : Tree) (bfs idx rootLeaves : List Id) : Bool :=
+  decide bfs.Nodup && decide rootLeaves.Nodup && S.parent S.root == none &&
+  idx.all fun x =>
+    decide (S.leaves x).Nodup && decide (S.exprArgs x).Nodup &&
+    (S.leaves x).all (fun l => rootLeaves.contains l && idx.contains l) &&
+    (S.exprArgs x).all (fun c => S.parent c == some x && idx.contains c &&
+      decide (bfs.idxOf x < bfs.idxOf c)) &&
+    (match S.parent x with
+     | some p => idx.contains p && (S.exprArgs p).contains x
+     | none => x == S.root)
+
+def Tree.wf (S : Tree) : Bool := S.wfWith S.bfs S.index (S.leaves S.root)
+
 def lookup (m : List (Id × Id)) (k : Id) : Option Id := (m.find? fun p => p.1 == k).map (·.2)
 
-/-- one row of the `_lcs` table: `ups = L[i-1][j..]`, `left = L[i][j-1]`, `diag = L[i-1][j-1]` -/
-def lcsRow (eq : Id → Id → Bool) (a : Id) : List (List Id) → List Id → List Id → List Id → List (List Id)
-  | up :: ups, b :: bs, left, diag =>
-    let cur := if eq a b then diag ++ [a] else if up.length > left.length then up else left
-    cur :: lcsRow eq a ups bs cur up
-  | _, _, _, _ => []
+/-- `_lcs`, one row.  The table of diff.py is indexed by PREFIXES of the two sequences; read on the reversed sequences
+    it is a table over SUFFIXES, which is structurally recursive: `prev` is the row of the shorter suffix `xs` (one entry
+    per suffix of `ys`, longest first), the result is the row of `x :: xs`.
+    `prev.headD []` is `L[i-1][j]`, `prev.tail.headD []` is `L[i-1][j-1]`, `rest.headD []` is `L[i][j-1]`. -/
+def lcsStep (eq : Id → Id → Bool) (x : Id) : List Id → List (List Id) → List (List Id)
+  | [], _ => [[]]
+  | y :: ys, prev =>
+    let rest := lcsStep eq x ys prev.tail
+    let cur :=
+      if eq x y then x :: prev.tail.headD []
+      else if (prev.headD []).length > (rest.headD []).length then prev.headD [] else rest.headD []
+    cur :: rest
 
-def lcs (eq : Id → Id → Bool) (as bs : List Id) : List Id :=
-  let row0 : List (List Id) := List.replicate (bs.length + 1) []
-  let final := as.foldl (fun prev a => [] :: lcsRow eq a (prev.drop 1) bs [] (prev.headD [])) row0
-  final.getLastD []
+def lcsRows (eq : Id → Id → Bool) : List Id → List Id → List (List Id)
+  | [], ys => List.replicate (ys.length + 1) []
+  | x :: xs, ys => lcsStep eq x ys (lcsRows eq xs ys)
+
+/-- the table entry for the two whole (reversed) sequences, itself reversed -/
+def lcsS (eq : Id → Id → Bool) (xs ys : List Id) : List Id := (lcsRows eq xs ys).headD []
+
+/-- `_lcs(seq_a, seq_b, equal)` -/
+def lcs (eq : Id → Id → Bool) (as bs : List Id) : List Id := (lcsS eq as.reverse bs.reverse).reverse
 
 /-- `_generate_move_edits` -/
 def moveEdits (S T : Tree) (m : List (Id × Id)) (unmatchedS : List Id) (s t : Id) : List (Id × Option Id) :=
@@ -302,6 +345,7 @@ def envOf (P : Params) (S T : Tree) (dice : Id → Id → Nat) : Env where
   innerSim := innerSimOf P S T dice
   moves := movesOf S T
   isUpdate := isUpdateOf P S T
+  countPre := P.countPre
 
 /-- `dict(matching_set)`: keys are unique for well-formed input, so the dict is the pair list -/
 structure Result where
@@ -314,5 +358,100 @@ def diffTrees (P : Params) (S T : Tree) (dice : Id → Id → Nat) (pre : List (
   let E := envOf P S T dice
   let M := matchAll E pre
   ⟨M.all, if deltaOnly then delta E M else script E M⟩
+
+/-! ### `diff()`, the wrapper around `ChangeDistiller.diff`: shared-node detection, copying, hash caches
+
+  Objects are ids.  A walked input tree is the list of its objects in `walk()` order, each with the walk position of
+  its structural parent (how the walk reached it) and the value of its `.parent` POINTER field (an object has a single
+  pointer even when it is referenced from two trees).  `_hash` caches are a predicate on objects.
+  NOT modelled: what the hashes are, `compute_node_mappings`' translation of `matchings` to the copies. -/
+namespace Wrapper
+
+inductive CopyRule where
+  | whenShared    -- `x.copy() if copy else x`
+  | whenSelfDup   -- copy only when the tree references one of its OWN objects twice (the seeded regression's shape)
+  | never
+  deriving DecidableEq, Repr
+
+inductive EvictRule where
+  | unlessCopiesHashed   -- `if not (copy and matchings)` (after fix 6c26962)
+  | whenNotCopied        -- `if not copy` (before the fix)
+  | always
+  | never
+  deriving DecidableEq, Repr
+
+/-- the shape of `diff()` as extracted from the source on every run -/
+structure Policy where
+  copySource : CopyRule
+  copyTarget : CopyRule
+  evict : EvictRule
+  deriving DecidableEq, Repr
+
+/-- today's `diff()` -/
+def today : Policy := ⟨.whenShared, .whenShared, .unlessCopiesHashed⟩
+
+structure WNode where
+  obj : Id
+  pp : Option Nat     -- walk position of the structural parent
+  ptr : Option Id     -- the object's `.parent` field
+  deriving DecidableEq, Repr
+
+abbrev Walk := List WNode
+
+def objs (w : Walk) : List Id := w.map (·.obj)
+
+def selfDup (w : Walk) : Bool := !decide (objs w).Nodup
+
+/-- `copy = len(source_nodes) != len(source_ids) or len(target_nodes) != len(target_ids) or source_ids & target_ids` -/
+def needCopy (sw tw : Walk) : Bool := selfDup sw || selfDup tw || (objs sw).any (objs tw).contains
+
+def applyRule (r : CopyRule) (copy : Bool) (w : Walk) : Bool :=
+  match r with
+  | .whenShared => copy
+  | .whenSelfDup => selfDup w
+  | .never => false
+
+/-- `tree.copy()`: the object at walk position `i` becomes the fresh object `fresh i`, pointers follow the structure -/
+def copyFrom (fresh : Nat → Id) : Nat → Walk → Walk
+  | _, [] => []
+  | i, n :: rest => ⟨fresh i, n.pp, n.pp.map fresh⟩ :: copyFrom fresh (i + 1) rest
+
+def copyWalk (fresh : Nat → Id) (w : Walk) : Walk := copyFrom fresh 0 w
+
+structure Run where
+  copied : Bool × Bool
+  seenS : Walk            -- what `ChangeDistiller.diff` receives as source
+  seenT : Walk
+  hashAfter : Id → Bool   -- `_hash is not None` when `diff()` returns
+
+/-- `diff(source, target, matchings)`; `touched` = the nodes whose hash the distiller computes (`==` on seen nodes) -/
+def runDiff (pol : Policy) (sw tw : Walk) (fs ft : Nat → Id) (hasMatchings : Bool) (touched : Id → Bool)
+    (hash0 : Id → Bool) : Run :=
+  let copy := needCopy sw tw
+  let cS := applyRule pol.copySource copy sw
+  let cT := applyRule pol.copyTarget copy tw
+  let seenS := if cS then copyWalk fs sw else sw
+  let seenT := if cT then copyWalk ft tw else tw
+  let seen := objs seenS ++ objs seenT
+  let inputs := objs sw ++ objs tw
+  -- `if copy and matchings:` hash the nodes of the (copied) trees, `else:` hash the input nodes
+  let filled := if copy && hasMatchings then seen else inputs
+  let h1 : Id → Bool := fun x => hash0 x || filled.contains x
+  let h2 : Id → Bool := fun x => h1 x || (touched x && seen.contains x)
+  let clear : Bool := match pol.evict with
+    | .unlessCopiesHashed => !(copy && hasMatchings)
+    | .whenNotCopied => !copy
+    | .always => true
+    | .never => false
+  ⟨(cS, cT), seenS, seenT, fun x => if clear && inputs.contains x then false else h2 x⟩
+
+/-- every object's `.parent` pointer agrees with the structure of the walk it is seen in -/
+def consistentB (w : Walk) : Bool :=
+  (List.range w.length).all fun k =>
+    match w[k]? with
+    | some n => n.ptr == n.pp.bind (fun j => (w[j]?).map (·.obj))
+    | none => true
+
+end Wrapper
 
 end SqlglotModel.Diff
